@@ -90,6 +90,20 @@ def read_entry_point_form():
     return [w for _, w in sorted(withs)], branches
 
 
+def read_memoize_init_form():
+    """`Memoize.__init__` (interpretations.py): every name it calls, and what it stores as its base.
+    Constructing must be pure w.r.t. the stack: no get_interpretation(), no layering; the base is the argument."""
+    tree = ast.parse((REPO / "funsor" / "interpretations.py").read_text())
+    cls = next((n for n in tree.body if isinstance(n, ast.ClassDef) and n.name == "Memoize"), None)
+    fn = cls and next((n for n in cls.body if isinstance(n, ast.FunctionDef) and n.name == "__init__"), None)
+    if fn is None:
+        return ["<Memoize.__init__ not found>"], "<none>"
+    calls = sorted({ast.unparse(n.func) for n in ast.walk(fn) if isinstance(n, ast.Call)})
+    base = [ast.unparse(n.value) for n in ast.walk(fn) if isinstance(n, ast.Assign)
+            and any(ast.unparse(t) == "self.base_interpretation" for t in n.targets)]
+    return calls, " | ".join(base)
+
+
 def read_live_tables():
     names = live_names()
     leaves, chains, total = [], OrderedDict(), []
@@ -144,6 +158,7 @@ def tables():
     live["rules"] = measure_probe_rules(live["leaves"])
     live["adjoint"] = [k for k in PROBES + ["S"] if PROBE_CLASS[k] in adjoint_ops]
     live["apply_optimizer_with"], live["apply_optimizer_branches"] = read_entry_point_form()
+    live["memoize_init_calls"], live["memoize_init_base"] = read_memoize_init_form()
     return live
 
 
@@ -193,6 +208,11 @@ def adjointProbes : List String := {lean_str_list(live["adjoint"])}
     order (ast.unparse), and the number of branching statements in it -/
 def applyOptimizerWith : List String := {lean_str_list(live["apply_optimizer_with"])}
 def applyOptimizerBranches : Nat := {live["apply_optimizer_branches"]}
+
+/-- `Memoize.__init__`: every callee in its body (ast.unparse), and the expression(s) it assigns to
+    `self.base_interpretation` -/
+def memoizeInitCalls : List String := {lean_str_list(live["memoize_init_calls"])}
+def memoizeInitBase : String := "{live["memoize_init_base"]}"
 
 end FV.Gen.C17
 """
@@ -349,6 +369,10 @@ class PyModel:
         return out, self.cstack(s), self.log
 
     def ctx_obj(self, c, s):
+        if isinstance(c, tuple):
+            if c[0] == "memoof":
+                return ("memo", c[1], False, self.named(c[2]))
+            return self.mk_prio([self.named(c[1]), self.named(c[2])])
         if c in ("memoize", "memoS1", "memoS2", "tape", "tapeR", "subst", "subst0"):
             if not s:
                 raise IndexError
@@ -421,31 +445,63 @@ class PyModel:
 # serialisation
 # --------------------------------------------------------------------------------------
 
+def static_ctx(ctor, cid):
+    """A prebuilt object holds only its constructor arguments, so the model can name it statically."""
+    if ctor.startswith("memo:"):
+        return ("memoof", cid, ctor[5:])
+    if ctor.startswith("prio:"):
+        a, b = ctor[5:].split(",")
+        return ("prioof", a, b)
+    if ctor == "Q":
+        return "Q"
+    if ctor == "tape":
+        return "tape"       # AdjointTape captures `_old_interpretation` in __enter__
+    raise ValueError(ctor)
+
+
 def inline(p, env=None):
-    """The model's view: a call of a decorated function is `with ctx:` around its body AT CALL TIME;
-    the decoration itself does nothing to the stack.  Names are resolved in textual order (generators
-    guarantee that a def has been executed before any of its calls).  KeyError = call before def."""
+    """The model's view.  (1) A call of a decorated function is `with ctx:` around its body AT CALL TIME;
+    the decoration itself does nothing to the stack.  (2) Constructing an interpretation object
+    (("mk", name, ctor)) does nothing to the stack either and the object holds only its arguments: entering
+    it later ("@name") is entering that object, at ENTER time.  Names are resolved in textual order
+    (generators guarantee that a def / mk has been executed before its uses).  KeyError = use before def."""
     env = {} if env is None else env
     t = p[0]
     if t == "seq":
         return ("seq", [inline(q, env) for q in p[1]])
     if t == "def":
-        env[p[1]] = (p[2], inline(p[3], env))
+        env[p[1]] = (ctx_of(p[2], env), inline(p[3], env))
+        return ("skip",)
+    if t == "mk":
+        n = env["#mk"] = env.get("#mk", 0) + 1
+        env["@" + p[1]] = static_ctx(p[2], 1000 + n)
         return ("skip",)
     if t == "call":
         c, body = env[p[1]]
         return ("deco", c, body)
     if t in ("with", "deco"):
-        return (t, p[1], inline(p[2], env))
+        return (t, ctx_of(p[1], env), inline(p[2], env))
     if t == "catch":
         return ("catch", inline(p[1], env))
     return p
 
 
+def ctx_of(c, env):
+    return env[c] if isinstance(c, str) and c[0] == "@" else c
+
+
+def sx_ctx(c):
+    if isinstance(c, tuple):
+        return "(" + " ".join(str(x) for x in c) + ")"
+    return "tape" if c == "tapeR" else c
+
+
 def sx_prog(p):
     t = p[0]
     if t == "def":
-        return "(def %s %s %s)" % (p[1], p[2], sx_prog(p[3]))
+        return "(def %s %s %s)" % (p[1], sx_ctx(p[2]), sx_prog(p[3]))
+    if t == "mk":
+        return "(mk %s %s)" % (p[1], p[2])
     if t == "call":
         return "(call %s)" % p[1]
     if t in ("obs", "raise", "skip"):
@@ -460,7 +516,7 @@ def sx_prog(p):
         return "(seq " + " ".join(sx_prog(q) for q in p[1]) + ")" if p[1] else "skip"
     if t in ("with", "deco"):
         # "tapeR" (one tape object re-entered sequentially, never nested in itself) is a tape to the model
-        return "(%s %s %s)" % (t, "tape" if p[1] == "tapeR" else p[1], sx_prog(p[2]))
+        return "(%s %s %s)" % (t, sx_ctx(p[1]), sx_prog(p[2]))
     if t == "catch":
         return "(catch %s)" % sx_prog(p[1])
     raise ValueError(p)
@@ -501,6 +557,8 @@ def to_python(p, ind=0, lines=None, fn=None):
         lines.append(pad + "def %s():" % name)
         to_python(p[2], ind + 1, lines, fn)
         lines.append(pad + "%s()" % name)
+    elif t == "mk":
+        lines.append(pad + "%s = construct(%r)" % (p[1], p[2]))
     elif t == "def":
         lines.append(pad + "@ctx(%r)" % p[2])
         lines.append(pad + "def %s():" % p[1])
@@ -606,6 +664,22 @@ def prog_entry_points(chain, kinds):
     return ("seq", body + [("obs",)])
 
 
+CTORS = ["memo:P", "memo:W", "memo:eager", "memo:lazy", "prio:P,lazy", "prio:P,W", "Q", "tape"]
+
+
+def prog_prebuilt(s1, ctor, s2, kinds):
+    """family H: an interpretation object is CONSTRUCTED inside the blocks `s1` (stack state S1), and — after
+    those have exited — ENTERED inside the blocks `s2` (S2): as a with-block, again as a decorated call, and
+    once with an exception; and once more at top level.  The model enters it at enter time."""
+    n1, n2 = len(s1), len(s2)
+    use = [("with", "@m", ("seq", [("obs",)] + FULL)), ("obs",),
+           ("def", "f", "@m", ("seq", [("obs",)] + LIGHT)), ("catch", ("call", "f")), ("obs",),
+           ("catch", ("with", "@m", ("seq", [("obs",), ("probe", "b", False, 1), ("raise",)]))), ("obs",)] + LIGHT
+    return ("seq", nest(s1, kinds[:n1], [("mk", "m", ctor)]) + [("obs",)]
+            + nest(s2, kinds[n1:n1 + n2], use)
+            + [("obs",), ("catch", ("with", "@m", ("seq", [("obs",)] + FULL))), ("obs",)])
+
+
 def prog_tape_reuse(c1, c2, kinds):
     """family D: one AdjointTape object entered, left, and entered again under a different context
     (its `_old_interpretation` must be the one active at the *latest* entry)."""
@@ -633,6 +707,7 @@ def random_prog(rng, depth, budget):
     substitution, armed probes), deeper than the exhaustive bound."""
     fresh = itertools.count(1)
     uniq = itertools.count(100)
+    objs = []        # [(name, ctor)] visible prebuilt objects (lexical scope, like defs)
 
     def tok():
         # mostly REPEATED terms (tokens 1, 2), sometimes a term never built before
@@ -648,10 +723,11 @@ def random_prog(rng, depth, budget):
             budget[0] -= 1
             r = rng.random()
             if d < depth and r < 0.50:
+                pre = [n for n in visible if n[0] == "@" and not (shared_open and n.endswith("T"))]
                 c = rng.choice(ALPHABET + ["P", "P", "W", "subst0", "tape", "memoize", "memoize", "memoS1", "memoS1", "memoS2"]
-                               + ([] if shared_open else ["tapeR"] * 3))
+                               + ([] if shared_open else ["tapeR"] * 3) + pre * 3)
                 kind = "deco" if rng.random() < 0.3 else "with"
-                blk = (kind, c, ("seq", go(d + 1, shared_open or c == "tapeR", visible)))
+                blk = (kind, c, ("seq", go(d + 1, shared_open or c == "tapeR" or c.endswith("T"), visible)))
                 items.append(("catch", blk) if rng.random() < 0.35 else blk)
             elif d < depth and r < 0.56:
                 # decorator form: decorate here, call later (under a different stack)
@@ -659,8 +735,13 @@ def random_prog(rng, depth, budget):
                 items.append(("def", name, rng.choice(ALPHABET + ["P", "P", "W", "memoS1"]),
                               ("seq", go(d + 1, True, visible))))
                 visible.append(name)
-            elif visible and r < 0.66:
-                call = ("call", rng.choice(visible))
+            elif r < 0.60:
+                ctor = rng.choice(CTORS)
+                name = "m%d%s" % (next(fresh), "T" if ctor == "tape" else "")
+                items.append(("mk", name, ctor))
+                visible.append("@" + name)
+            elif [v for v in visible if v[0] != "@"] and r < 0.66:
+                call = ("call", rng.choice([v for v in visible if v[0] != "@"]))
                 items.append(("catch", call) if rng.random() < 0.4 else call)
             elif r < 0.70:
                 items.append(("obs",))
@@ -965,6 +1046,17 @@ def enumerate_entry_points(ctx, chk, D):
             chk.add(prog_entry_points(list(chain), kinds_for(ctx.rng, k)), "G:entry-points")
 
 
+def enumerate_prebuilt(ctx, chk, thorough):
+    chains = {n: [list(c) for c in itertools.product(ALPHABET, repeat=n)] for n in (0, 1, 2)}
+    for n1, n2 in [(0, 0), (0, 1), (1, 0), (1, 1), (0, 2), (1, 2)] + ([(2, 1), (2, 2)] if thorough else []):
+        for s1 in chains[n1]:
+            for s2 in chains[n2]:
+                # quick, depth sum 3: the constructors the seeded class needs (a partial base / partial parts)
+                ctors = CTORS if (thorough or n1 + n2 <= 2) else ["memo:P", "prio:P,W"]
+                for ctor in ctors:
+                    chk.add(prog_prebuilt(s1, ctor, s2, kinds_for(ctx.rng, n1 + n2)), "H:prebuilt-object")
+
+
 def enumerate_reuse(ctx, chk):
     for c1 in ALPHABET:
         for c2 in ALPHABET:
@@ -998,6 +1090,9 @@ def correspond(ctx, use_driver=True, volume=1):
                 "different stack states: `@k def f` decorated inside every block chain of depth <= 2 and called (normally, raising, "
                 "and from inside another decorated function) inside every block chain of depth <= 2 (quick: depth sum <= 3), for every k "
                 "— the model enters k at call time.  with-vs-decorator per block is drawn from the PRNG.  "
+                "(H) PREBUILT interpretation objects (Memoize(P|W|eager|lazy), PrioritizedInterpretation(P, lazy|W), a StatefulInterpretation "
+                "instance, AdjointTape()) constructed inside every chain of depth <= 1 and, after that chain has exited, entered (with-block, "
+                "decorated call, with an exception, re-entered) inside every chain of depth <= 2 (thorough: both <= 2); "
                 "(G) library entry points that push interpretations internally — apply_optimizer(lazy term), reinterpret(lazy term), "
                 "forward_backward — called at the innermost position of every chain of depth <= 3 (thorough 4), also with a rule raising "
                 "inside apply_optimizer, and at the innermost position of every family-A chain; (F) memoize(cache=d) (explicit shared dict) in every chain of depth <= 3 containing it.  The SAME probe terms (token 1) are built at "
@@ -1017,6 +1112,7 @@ def correspond(ctx, use_driver=True, volume=1):
     enumerate_reuse(ctx, chk)
     enumerate_shared_cache(ctx, chk)
     enumerate_entry_points(ctx, chk, 3 if ctx.tier == "quick" else 4)
+    enumerate_prebuilt(ctx, chk, ctx.tier != "quick")
     enumerate_decorate_call(ctx, chk, ctx.tier != "quick")
     ctx.exhaustive = True
     n_rand = (3000 if ctx.tier == "quick" else 40000) * volume
@@ -1045,6 +1141,11 @@ def search(ctx, broken):
     enumerate_all(ctx, chk, 3)
     enumerate_reuse(ctx, chk)
     enumerate_entry_points(ctx, chk, 2)
+    chains1 = [[]] + [[c] for c in ALPHABET]
+    for s1 in chains1:
+        for s2 in chains1:
+            for ctor in CTORS:
+                chk.add(prog_prebuilt(s1, ctor, s2, kinds_for(ctx.rng, 2)), "H:prebuilt-object")
     chk.flush()
     if have() > before:
         return
